@@ -102,13 +102,14 @@ Example vardecl_witness : vd_effects vardecl_policy false wit_dead_later = [1%na
 Proof. split; reflexivity. Qed.
 
 (* ---------- unsequenced operands: the result may depend on the C compiler (Order.v, copy of coq/C01) ---------- *)
-Definition compiler_independent_full : Prop :=
-  forall fe e st o1 o2, nelua_run fe e st o1 = nelua_run fe e st o2.
-(* x + f() with f assigning the global x := 10 and returning 100: 101 or 110 *)
+Definition compiler_independent_full (pol : se_policy) : Prop :=
+  forall fe e st o1 o2, nelua_run pol fe e st o1 = nelua_run pol fe e st o2.
+(* x + f() with f assigning the global x := 10 and returning 100: 101 or 110, whatever the analyzer's sideeffect
+   rules are (the left operand is a plain variable: the operator is emitted unsequenced) *)
 Definition fe_x : fenv := fun f =>
   match f with 1%nat => mk_fdef true [mk_w true 0 10 false] None 100 | _ => mk_fdef false [] None 0 end.
 Definition e_x_plus_f : expr := EBin AAdd (EVar VGlobal 0) (ECall 1 []).
-Lemma compiler_independent_refuted : ~ compiler_independent_full.
-Proof. intro F. specialize (F fe_x e_x_plus_f ([1], []) [0%nat] [1%nat]). vm_compute in F. discriminate F. Qed.
-Example ex_x_plus_f : snd (nelua_run fe_x e_x_plus_f ([1], []) [0%nat]) = 101 /\ snd (nelua_run fe_x e_x_plus_f ([1], []) [1%nat]) = 110.
-Proof. vm_compute. split; reflexivity. Qed.
+Lemma compiler_independent_refuted : forall pol, ~ compiler_independent_full pol.
+Proof. intros [[] []] F; specialize (F fe_x e_x_plus_f ([1], []) [0%nat] [1%nat]); vm_compute in F; discriminate F. Qed.
+Example ex_x_plus_f : forall pol, snd (nelua_run pol fe_x e_x_plus_f ([1], []) [0%nat]) = 101 /\ snd (nelua_run pol fe_x e_x_plus_f ([1], []) [1%nat]) = 110.
+Proof. intros [[] []]; vm_compute; split; reflexivity. Qed.
